@@ -121,8 +121,15 @@ Blocks(I, m, s, p) ==
 Stable(I, m)       == \A s \in S(I) : \A p \in Acc(I, s) : ~Blocks(I, m, s, p)
 BlockingPairs(I,m) == {<<s, p>> \in S(I) \X P(I) : p \in Acc(I, s) /\ Blocks(I, m, s, p)}
 
+(* candidates for VALID matchings: a project of upper quota 0 can never hold a student (Valid demands       *)
+(* PCount <= upper quota, with or without closures), so such projects need not be tried; this keeps          *)
+(* instances with a crowd of students ranking only a zero-capacity project enumerable                        *)
+AllMPos(I) == FoldLeft(LAMBDA acc, s : {Append(m, c) : m \in acc, c \in {0} \cup {p \in Acc(I, s) : I.puq[p] > 0}},
+                       {<<>>}, [s \in 1 .. I.ns |-> s])
 Feasible(I, pc, stab) ==
-    {m \in AllM(I) : Valid(I, m, pc) /\ (stab => Stable(I, m))}
+    {m \in AllMPos(I) : Valid(I, m, pc) /\ (stab => Stable(I, m))}
+(* the restriction loses nothing (checked on the exhaustive zero-capacity families) *)
+FeasibleAll(I, pc, stab) == {m \in AllM(I) : Valid(I, m, pc) /\ (stab => Stable(I, m))}
 
 -----------------------------------------------------------------------------
 (* Statistics of a matching.                                               *)
